@@ -34,4 +34,13 @@ def entryVerdict (k : Kind) (outcome : Nat) (decoderInContract : Bool) : Verdict
     if !decoderInContract then .unjudged
     else if outcome = 3 then .violated else .ok
 
+/-- a failing file operation of the cache while a template is loaded: "a cache problem is never an error for the template
+    user" — an operating-system error (any `OSError`) at any of the cache's file operations must leave `get_template`
+    returning a template that renders what compiling the current source renders; other exceptions (KeyboardInterrupt …)
+    are not the cache's to swallow and are not judged here -/
+def fsFaultVerdict (isOSError propagated renderedCurrentSource : Bool) : Verdict :=
+  if !isOSError then .unjudged
+  else if propagated then .violated
+  else if renderedCurrentSource then .ok else .violated
+
 end JinjaV.SpecBcCache
